@@ -150,8 +150,8 @@ def same_content_cases(g, n):
     container field"""
     r = g.rng
     out = []
-    for _ in range(n):
-        c = r.randrange(4)
+    for it_ in range(max(n, 4)):
+        c = it_ if it_ < 4 else r.randrange(4)      # (every kind at least once)
         lims = r.sample([64, 100, 128, 1000, 2048, 2**20], 3)
         if c == 0:
             nb = r.choice([33, 40, 64])
@@ -1043,6 +1043,25 @@ class DecProp(Prop):
                     b2 = bytearray(enc)
                     b2[i_:i_ + 4] = o_.to_bytes(4, 'little')
                     out.append(show(['dec', t, 'x', 'x' + bytes(b2).hex(), 'x']))
+        # sequences of two and more EMPTY variable-size elements (the encoding is nothing but the offset table): valid, then
+        # with every later offset replaced by 0, by 4 and by an offset beyond the end
+        for _ in range(5):
+            e = r.choice([['Bl', 4], ['list', 'u8', 4], ['list', 'u16', 2], ['list', ['Bl', 2], 2], ['union', 'none', 'u8']])
+            if kind(e) == 'union':
+                continue
+            cnt = r.choice([2, 2, 3, 4])
+            t = r.choice([['list', e, cnt + r.choice([0, 1, 4])], ['vec', e, cnt]])
+            first = 4 * cnt
+            enc = first.to_bytes(4, 'little') * cnt
+            wrap = r.random() < 0.3
+            tt = ['cont', 'u8', t] if wrap else t
+            pre_ = bytes([9, 5, 0, 0, 0]) if wrap else b''
+            out.append(show(['dec', tt, 'x', 'x' + (pre_ + enc).hex(), 'x']))
+            for i_ in range(1, cnt):
+                for o_ in (0, 4, first + 1, first - 4, 2 ** 32 - 1):
+                    b2 = bytearray(enc)
+                    b2[4 * i_:4 * i_ + 4] = o_.to_bytes(4, 'little')
+                    out.append(show(['dec', tt, 'x', 'x' + (pre_ + bytes(b2)).hex(), 'x']))
         # union selectors with the high bit set (128 + a valid selector): top level, as a field, as an element
         for _ in range(6):
             opts = [r.choice(['u8', 'u16', ['list', 'u8', 4], ['Bv', 2], ['cont', 'u8', 'u8']]) for _ in range(r.choice([1, 2, 3]))]
@@ -1384,6 +1403,12 @@ class C12(Prop):
             wrapt = g.rng.choice([bvt, ['cont', 'u8', bvt], ['vec', bvt, 2], ['union', bvt, 'u8']])
             out.append(show(['type', wrapt]))
             out.append(show(['type', bvt]))
+        # default vectors of composite elements (whose default root is not the zero chunk) at every small length, in
+        # particular the even lengths that are not powers of two
+        for n_ in (3, 5, 6, 7, 9, 10, 11, 12, 13, 14, 15, 17, 18, 20, 24):
+            e = g.rng.choice([['cont', 'u8', 'u16'], ['Bv', 48], ['list', 'u8', 4], ['vec', 'u64', 5], ['bl', 9], ['cont', ['list', 'u8', 2]], ['union', 'u8', 'u16']])
+            t = ['vec', e, n_]
+            out.append(show(['type', g.rng.choice([t, t, ['cont', 'u8', t], ['vec', t, 2]])]))
         # vectors far too long to be read completely (lengths around 2**53 and beyond, where floating point arithmetic
         # rounds): the default tree is navigable at the first, middle and last element
         for _ in range(max(6, self.n(tier) // 20)):
